@@ -72,6 +72,8 @@ class Query:
     bound: str = ""                # human-readable statement of the bound of this query
     group: str = ""                # for evidence: which clause of the property this decides
     tiers: tuple = ("quick", "thorough")
+    out_of_scope: list = field(default_factory=list)   # (function, substring of description, reason): solver-built-in checks not part of the
+                                                        # property (standard-level UB that does not reproduce natively); listed in the evidence
 
 
 @dataclass
@@ -88,6 +90,7 @@ class QResult:
     failures: list = field(default_factory=list)   # dicts: prop, desc, func, file, line, kind, replay...
     functions: set = field(default_factory=set)
     vcc: int = 0
+    excluded: list = field(default_factory=list)
 
 
 # --------------------------------------------------------------------------------------
@@ -427,6 +430,12 @@ def run_query1(ctx, q, known, extra_flags):
             r.benign_shift_failed = True
         if kind == "benign":      # left shift of a negative value: two's-complement semantics, see DESIGN.md 1.2
             continue
+        if kind == "builtin":
+            oos = [o for o in q.out_of_scope if o[0] == fn and o[1] in desc]
+            if oos:
+                if pr["status"] != "SUCCESS":
+                    r.excluded.append("%s: %s [%s] -- %s" % (fn, desc, pr["status"], oos[0][2]))
+                continue
         r.n_props += 1
         if fl and fn and not fl.startswith("<"):
             r.functions.add("%s:%s" % (fl, fn))
@@ -795,6 +804,7 @@ def finish(ctx, info, results, known, fixed, extra_cov=None):
              "unwind": r.q.unwind, "solver": r.q.solver or "minisat(default)", "status": r.status,
              "obligations": r.n_props, "discharged": r.n_ok, "witness_reached": r.witness,
              "wall_s": round(r.wall, 2), "solver_s": round(r.solver_s, 2),
+             "excluded_checks": r.excluded[:8],
              "failures": [{k: v for k, v in f.items() if k in ("prop", "desc", "func", "file", "kind", "replay", "replay_result", "inputs")}
                           | ({"known": f["known"]["line"]} if "known" in f else {}) for f in r.failures][:8]}
             for r in results],
